@@ -82,6 +82,11 @@ func drawGC(n int, rng *rand.Rand) Spec {
 		}
 		S.Claims = append(S.Claims, c)
 	}
+	if rng.Intn(2) == 0 {
+		// one more claim whose scale-up completes while the GC pass is between its two reads
+		S.Claims = append(S.Claims, ClaimSpec{Pool: rng.Intn(np), StepBeforeMs: rng.Intn(30000), Stage: stLaunched,
+			JoinsDuringPass: []string{"provider-list", "claim-list"}[rng.Intn(2)]})
+	}
 	return S
 }
 
